@@ -492,6 +492,7 @@ func (r *simRun) clientEvent(ci int, data []byte) {
 	}
 	var choices []string
 	gi := 0
+	attributed := map[int]bool{}
 	for _, q := range newReqs {
 		if q.local {
 			continue
@@ -514,19 +515,27 @@ func (r *simRun) clientEvent(ci int, data []byte) {
 			q.local = true
 			// slots visited before the failing one only matter when they dialled a new connection
 			var vs []string
-			usedByAccepted := map[int]bool{}
 			for _, e := range r.enq[enq0:] {
-				usedByAccepted[e.backend] = true
+				attributed[e.backend] = true // dialled for a request that was accepted in this event
 			}
+			masterOnly := r.cfg.noslave || q.typ > codec.ReqWriteCmdStart || q.typ == codec.ReqHscan || q.typ == codec.ReqSscan || q.typ == codec.ReqZscan
 			for bi, nb := range r.backends[nb0:] {
-				if usedByAccepted[nb0+bi] {
-					continue // dialled for a request that was accepted in this event
+				if attributed[nb0+bi] {
+					continue
 				}
 				for _, k := range q.keys {
 					s := int(hashkit.Hash(string(k)))
 					m, sl, _ := r.topo.owner(s)
-					if m == nb.peer.addr || containsStr(sl, nb.peer.addr) {
+					// the connection was dialled by the first rejected request that can have been routed there
+					live := false
+					for _, a := range sl {
+						if r.topo.hasPool(a) {
+							live = true
+						}
+					}
+					if (m == nb.peer.addr && (masterOnly || !live)) || (!masterOnly && containsStr(sl, nb.peer.addr)) {
 						vs = append(vs, fmt.Sprintf("%d@%s", s, hx([]byte(nb.peer.addr))))
+						attributed[nb0+bi] = true
 						break
 					}
 				}
